@@ -22,8 +22,10 @@ import (
 
 	"github.com/invopop/gobl"
 	"github.com/invopop/gobl/bill"
+	"github.com/invopop/gobl/cbc"
 	"github.com/invopop/gobl/currency"
 	"github.com/invopop/gobl/dsig"
+	"github.com/invopop/gobl/head"
 	"github.com/invopop/gobl/internal/cli"
 	"github.com/invopop/gobl/schema"
 	"github.com/invopop/gobl/tax"
@@ -164,6 +166,11 @@ func loadSources() {
 			addons = append(addons, a.Key.String())
 		}
 		sort.Strings(addons)
+		// legacy shapes run through the migration code, twice each so that
+		// goroutines meet on them
+		for _, d := range corpus.Legacy() {
+			sources = append(sources, docSrc{name: d.Path, json: d.JSON})
+		}
 		seenRegime := map[string]bool{}
 		for _, d := range corpus.MustLoad() {
 			if d.IsEnv {
@@ -198,7 +205,12 @@ func loadSources() {
 	})
 }
 
-var ops = []string{"parse", "calculate", "validate", "sign+verify", "correct", "replicate", "options-schema"}
+var ops = []string{"parse", "calculate", "validate", "sign+verify", "correct", "correct-stamped", "replicate", "options-schema"}
+
+var sharedCorrectOpts = func() []schema.Option {
+	s := make([]schema.Option, 0, 6)
+	return append(s, bill.Credit, bill.WithReason("r"))
+}()
 
 var volatileRe = regexp.MustCompile(`"(uuid|dig|issue_date|value_date|op_date|sigs|val)":("[^"]*"|\{[^}]*\}|\[[^\]]*\])`)
 
@@ -238,6 +250,24 @@ func runTask(src docSrc, op string) string {
 			return "verify-error: " + err.Error()
 		}
 		return "signed+verified"
+	case "correct-stamped":
+		// a signed and stamped envelope corrected with option values that every
+		// goroutine shares (a slice with spare capacity, as append leaves them)
+		if err := env.Sign(signKey); err != nil {
+			return "sign-error: " + err.Error()
+		}
+		env.Head.AddStamp(&head.Stamp{Provider: cbc.Key("verif-stamp"), Value: src.name})
+		ne, err := env.Correct(sharedCorrectOpts...)
+		for i, sp := range sharedCorrectOpts[:cap(sharedCorrectOpts)][len(sharedCorrectOpts):] {
+			if sp != nil {
+				return fmt.Sprintf("shared-options-written: Envelope.Correct wrote to slot %d of the spare capacity of the caller's option slice", len(sharedCorrectOpts)+i)
+			}
+		}
+		if err != nil {
+			return "correct-error: " + stable([]byte(err.Error()))
+		}
+		out, _ := json.Marshal(ne)
+		return stable(out)
 	case "correct":
 		ne, err := env.Correct(bill.Credit, bill.WithReason("r"))
 		if err != nil {
@@ -770,11 +800,18 @@ func genBulk(t *rapid.T) BulkCase {
 func init() {
 	vh.OnExit(goblexec.Stop)
 	vh.Describe(
-		"Workload plans: 8-60 tasks (operation in {parse, calculate, validate, sign+verify, correct, replicate, options-schema} on a document) over a small pool of documents drawn from every example plus cross pairs (one invoice per regime listing each registered addon), run by 2-16 goroutines behind a start barrier with GOMAXPROCS in {1,2,4,16} and optional yields; plus a sweep running every document x {calculate, validate, correct, options-schema}. Oracles: (1) the race detector (binary built with -race; reports are read from the detector's log), (2) every task's result equals the sequential baseline (identifiers, digests, dates and signatures masked), (3) a deep fingerprint of every registered regime / addon / catalogue / extension / currency definition - including the spare capacity of slices - is identical before and after. Bulk streams: 1-14 mixed requests (ping, sleep with skewed latencies, build from the source, validate / correct / replicate of the source or of the calculated envelope, sign with the default or an explicit private key, verify of a pre-signed envelope with the right, another or no public key, schema, regime, schemas, unknown action, malformed payloads, duplicate and empty req_ids, streams ending in garbage) through cli.Bulk in process and POST /bulk of a -race build of gobl serve: one response per request with its req_id and 1-based seq_id, payload equal to the standalone operation, exactly one final marker, last, with seq_id n+1. Non-trivial: >= 2 goroutines, or >= 2 requests in flight.",
+		"Workload plans: 8-60 tasks (operation in {parse, calculate, validate, sign+verify, correct, correct of the signed and stamped envelope with option values shared by all goroutines, replicate, options-schema} on a document) over a small pool of documents drawn from every example, legacy variants of the examples (shapes migrated on load) plus cross pairs (one invoice per regime listing each registered addon), run by 2-16 goroutines behind a start barrier with GOMAXPROCS in {1,2,4,16} and optional yields; plus a sweep running every document x {calculate, validate, correct, options-schema}; plus, for every ordered pair of registered addons (on an example invoice of either addon's home regime and of ES), the sequence probes - pair - probes, where the probes are the base invoice and the invoice with either addon alone (calculate / validate / correct) and the pair is the invoice listing both addons (five operations): the probes must give the same results before and after (state outside the registries: package-level tables, caches). Cold start: a fresh child process of the same -race binary handles every source document for the first time from 8 goroutines at once (calculate / correct / validate / options-schema twice each), with no sequential pass before it - this is when lazily built and migration tables are written; the goroutines must agree and the detector must stay silent (on a failure the document list is halved until it no longer fails). Oracles: (1) the race detector (binary built with -race; reports are read from the detector's log), (2) every task's result equals the sequential baseline (identifiers, digests, dates and signatures masked), (3) a deep fingerprint of every registered regime / addon / catalogue / extension / currency definition - including the spare capacity of slices - is identical before and after. Bulk streams: 1-14 mixed requests (ping, sleep with skewed latencies, build from the source, validate / correct / replicate of the source or of the calculated envelope, sign with the default or an explicit private key, verify of a pre-signed envelope with the right, another or no public key, schema, regime, schemas, unknown action, malformed payloads, duplicate and empty req_ids, streams ending in garbage) through cli.Bulk in process and POST /bulk of a -race build of gobl serve: one response per request with its req_id and 1-based seq_id, payload equal to the standalone operation, exactly one final marker, last, with seq_id n+1. Non-trivial: >= 2 goroutines, or >= 2 requests in flight.",
 		"schedule exploration is randomised stress: the race detector can miss a race; the definition fingerprint cannot miss a write the workload triggers",
 		"identifiers, digests, dates and signatures are masked when comparing results",
 	)
+	vh.Custom("cold_start", runCold, func(raw json.RawMessage, o *vh.Obs) {
+		var c ColdCase
+		if json.Unmarshal(raw, &c) == nil {
+			judgeCold(c, o)
+		}
+	})
 	vh.Enum("sweep", enumSweep, judgePlan)
+	vh.Enum("order_dependence", enumOrder, judgeOrder)
 	vh.Rapid("plans", 60, 2_400, genPlan, judgePlan)
 	vh.Rapid("bulk", 120, 6_000, genBulk, judgeBulk)
 }
